@@ -78,7 +78,8 @@ Section Rec2.
     induction fuel as [|k IH]; intros o sl src comps cs d pend x ow pinc pexc s s' r C Hc Hcs Hcn Hp Hpn Hx Hxn Hu L Hsp Hpk Rk H.
     { cbn [copy_rec] in H. unfold fail in H. injection H as <- <-. split; [|exact Rk]. split; [apply stays_stays_ok, stays_refl; auto|].
       intros [a Ha]; discriminate. }
-    cbn [copy_rec] in H. rewrite bind_run, sys_run in H. cbn [fst snd] in H. rewrite sys_lstat_fs in H.
+    cbn [copy_rec] in H. rewrite bind_run in H. unfold get_fs at 1 in H.
+    rewrite bind_run, sys_run in H. cbn [fst snd] in H. rewrite sys_lstat_fs in H.
     pose proof (cx_dcs _ _ _ _ _ C) as Hdn.
     assert (Hd : is_dir (s_fs s) d = true) by (eapply chain_end_dir; eauto).
     assert (Hsame : forall s1 (r1 : unit + N), s_fs s1 = s_fs s -> s_links s1 = s_links s -> s_parents s1 = s_parents s ->
@@ -285,14 +286,14 @@ Section Rec2.
         assert (Hkl : kind_is_link fi = false) by (unfold kind_is_link; rewrite Ek; reflexivity).
         pose proof (P4 eq_refl Hkd) as Hab.
         rewrite bind_run in H.
-        destruct (copy_regular c src (tpath cs2 x) ino s4) as [s5 [[]|e]] eqn:E5.
-        * destruct (copy_regular_spec c f0 dr dcs s4 s5 _ cs2 d2 x src ino T4 Hab Lok4 E5) as (S5 & Pa5 & P5).
+        destruct (copy_regular c src (tpath cs2 x) ino (N.ltb 1 (nlink (s_fs s) ino)) s4) as [s5 [[]|e]] eqn:E5.
+        * destruct (copy_regular_spec c f0 dr dcs s4 s5 _ cs2 d2 x src ino _ T4 Hab Lok4 E5) as (S5 & Pa5 & P5).
           assert (Rk5 : rok s5) by (eapply (copy_regular_reads c f0 dr dcs R SPN HC); [apply T4|apply Hspn; exact Hkl|exact E5|exact Rk4]).
           destruct (P5 eq_refl) as (i & Hn & _ & Hl).
           assert (S5' : stays d2 s4 s5).
           { destruct S5 as (C5 & A5 & L5 & K5). split; auto. split; auto. split; [intros Lx; apply L5; auto; exists tt; reflexivity|]. split; auto. }
           eapply (Hfin s5 i); eauto.
-        * injection H as <- <-. destruct (copy_regular_spec c f0 dr dcs s4 s5 _ cs2 d2 x src ino T4 Hab Lok4 E5) as (S5 & Pa5 & _).
+        * injection H as <- <-. destruct (copy_regular_spec c f0 dr dcs s4 s5 _ cs2 d2 x src ino _ T4 Hab Lok4 E5) as (S5 & Pa5 & _).
           split; [|eapply (copy_regular_reads c f0 dr dcs R SPN HC); [apply T4|apply Hspn; exact Hkl|exact E5|exact Rk4]].
           apply Hfrom4; [exact S5|intros [a Ha]; discriminate].
       + (* symlink *)
